@@ -282,8 +282,15 @@ def _prune_cache(keep):
         return
     ents = [e for e in ents if os.path.isdir(e) and os.path.basename(e) != keep]
     ents.sort(key=lambda e: os.path.getmtime(e), reverse=True)
-    for e in ents[2:]:
-        shutil.rmtree(e, ignore_errors=True)
+    # another check may be running from a build of another tree (a scratch tree with a seeded change next to /repo): only
+    # builds nobody has asked for in the last six hours are dropped, and the three most recent others always stay
+    now = time.time()
+    for i, e in enumerate(ents[3:]):
+        try:
+            if now - os.path.getmtime(e) > 6 * 3600 or i >= 40:
+                shutil.rmtree(e, ignore_errors=True)
+        except OSError:
+            pass
 
 
 _tc = None
